@@ -32,7 +32,11 @@ EXTENDS CodecDefs, MpqCrypto
 
 CONSTANTS SectorSize,     \* bytes per sector (512 << shift in the implementation; 4 in the small model)
           TableSize,      \* hash table size (power of two)
-          FlagFix         \* FALSE: builder as it is; TRUE: COMPRESS is set for every sectored file
+          FlagFix,        \* FALSE: builder before 9cf2783; TRUE: COMPRESS is set for every sectored file
+          UseHetBet,      \* the archive carries HET/BET tables (V3/V4) and the reader consults them first
+          HetSize,        \* number of HET slots (power of two >= 2 * files)
+          BetFix          \* FALSE: the builder stores one-at-a-time hashes in the BET table; TRUE: the lookup3
+                          \*        value the reader verifies against
 
 \* ---------------------------------------------------------------------------------------------
 \* names and their spellings
@@ -44,15 +48,26 @@ Spell(nm, sp) == CASE sp = "asis"  -> nm
                    [] sp = "lower" -> [j \in 1..Len(nm) |-> Lower(nm[j])]
                    [] sp = "flip"  -> [j \in 1..Len(nm) |-> FlipSlash(nm[j])]
 
-\* what the library hashes: the full name as given (NOT the part after the last separator, which is
-\* what the published format prescribes -- MpqCrypto!FileKey; writer and reader agree with each other)
-LibFileKeyDef(nm) == HashString(nm, FILE_KEY)
+\* the key is derived from the plain file name (the part after the last separator), as the format prescribes
+\* (crypto::file_key since f4d4c14; before that the library hashed the full path on both sides)
+LibFileKeyDef(nm) == FileKey(nm)
 NameHashDef(nm) == [home |-> HashString(nm, TABLE_OFFSET)[2] % TableSize,   \* & (size - 1), size a power of two
                     a    |-> HashString(nm, NAME_A),
                     b    |-> HashString(nm, NAME_B)]
 \* (model-checking configurations replace these two by tables pre-computed from the definitions above)
 LibFileKey(nm) == LibFileKeyDef(nm)
 NameHash(nm)   == NameHashDef(nm)
+
+\* HET / BET name hashes (reference: MpqCrypto).  HET slots hold the top 8 bits of the hash_entry_size-bit lookup3 hash
+\* (the builder uses hash_entry_size = 8, so start slot = that byte mod HetSize); the BET table holds one 64-bit name
+\* hash per file, which the reader compares with the 64-bit lookup3 hash of the spelled name.
+Het8Def(nm)    == HetHash(nm, 8).name1
+BetL3Def(nm)   == HetHash(nm, 64).file          \* what bet.verify_file_hash computes
+BetOaatDef(nm) == Oaat64(nm)                    \* what create_bet_table stored before the fix (crypto::jenkins_hash)
+Het8(nm)    == Het8Def(nm)
+BetL3(nm)   == BetL3Def(nm)
+BetOaat(nm) == BetOaatDef(nm)
+BetWriterHash(nm) == IF BetFix THEN BetL3(nm) ELSE BetOaat(nm)
 
 \* ---------------------------------------------------------------------------------------------
 \* writer, functional core
@@ -78,7 +93,9 @@ SumStored(secs) == LET F[j \in 0..Len(secs)] == IF j = 0 THEN 0 ELSE F[j-1] + se
 
 WriterFlags(f, crc, secs) ==
   (IF IsSingleUnit(f.len) THEN {"SINGLE_UNIT"} ELSE {})
-  \cup (IF crc THEN {"SECTOR_CRC"} ELSE {})
+  \* no sector checksum on a single-unit file that went through a lossy stage (759f687; before that the flag was
+  \* always set and the reader's checksum comparison could never succeed: DevLossyCrc)
+  \cup (IF crc /\ ~(IsSingleUnit(f.len) /\ AnyShrunk(secs) /\ LossySel(f.method)) THEN {"SECTOR_CRC"} ELSE {})
   \cup (IF AnyShrunk(secs) \/ (FlagFix /\ ~IsSingleUnit(f.len)) THEN {"COMPRESS"} ELSE {})
   \cup (IF f.enc # "plain" THEN {"ENCRYPTED"} ELSE {})
   \cup (IF f.enc = "encfix" THEN {"FIX_KEY"} ELSE {})
@@ -88,7 +105,8 @@ OffsetTableSize(len) == 4 * (SectorCount(len) + 1)
 \* block entry's compressed size (CRC bytes are not counted)
 WriterCsize(f, secs) == IF IsSingleUnit(f.len) THEN secs[1].st ELSE OffsetTableSize(f.len) + SumStored(secs)
 \* bytes the file occupies in the archive
-WriterSpan(f, crc, secs) == IF IsSingleUnit(f.len) THEN secs[1].st + (IF crc THEN 4 ELSE 0)
+WriterSpan(f, crc, secs) == IF IsSingleUnit(f.len)
+                            THEN secs[1].st + (IF crc /\ ~(AnyShrunk(secs) /\ LossySel(f.method)) THEN 4 ELSE 0)
                             ELSE OffsetTableSize(f.len) + (IF crc THEN 4 * SectorCount(f.len) ELSE 0) + SumStored(secs)
 
 KeyFor(nm, fix, pos, fsize) == IF fix THEN FixKey(LibFileKey(nm), WFromNat(pos), WFromNat(fsize)) ELSE LibFileKey(nm)
@@ -110,8 +128,36 @@ Insert(slots, nm, blk) ==
              ELSE F[k + 1]
   IN F[0]
 
+\* HET insertion (create_het_table_with_hash_table): linear probing from h8 mod size; a slot is free iff its byte is
+\* 0xFF -- which is also a legal name hash (named deviation DevHet8FF: such an entry looks free)
+EmptyHet == [h8 |-> 255, fidx |-> 0]
+HetInsert(het, nm, fidx) ==
+  LET F[k \in 0..HetSize] ==
+        IF k = HetSize THEN [ok |-> FALSE, het |-> het]                       \* "HET table full"
+        ELSE LET ix == (Het8(nm) + k) % HetSize IN
+             IF het[ix].h8 = 255 THEN [ok |-> TRUE, het |-> [het EXCEPT ![ix] = [h8 |-> Het8(nm), fidx |-> fidx]]]
+             ELSE F[k + 1]
+  IN F[0]
+DevHet8FF(nm) == Het8(nm) = 255
+
 \* ---------------------------------------------------------------------------------------------
 \* reader, functional core
+
+\* HET probe (het.find_file_with_collision_info): file indices of the slots on the probe path whose byte matches,
+\* in probe order, up to the first free slot
+HetCandidates(het, nm) ==
+  LET F[k \in 0..HetSize] ==
+        IF k = HetSize THEN <<>>
+        ELSE LET e == het[(Het8(nm) + k) % HetSize] IN
+             IF e.h8 = 255 THEN <<>>
+             ELSE IF e.h8 = Het8(nm) THEN <<e.fidx>> \o F[k + 1] ELSE F[k + 1]
+  IN F[0]
+\* BET verification (archive.find_file): the first candidate whose stored hash equals the reader's hash; 0 = none
+BetFirstVerified(beth, cands, nm) ==
+  LET F[k \in 1..(Len(cands) + 1)] ==
+        IF k > Len(cands) THEN 0
+        ELSE IF cands[k] \in 1..Len(beth) /\ beth[cands[k]] = BetL3(nm) THEN cands[k] ELSE F[k + 1]
+  IN F[1]
 
 Lookup(slots, nm) ==
   LET h == NameHash(nm)
@@ -195,10 +241,14 @@ VARIABLES vph,      \* "writing" | "hashing" | "built" | "failed"
           vpos,     \* write cursor
           vblocks,  \* block table
           vslots,   \* hash table
-          vlast     \* the last observation of the reader: [kind, file, sp, out]
-bvars == <<vph, vfiles, vcrc, vcur, vsecs, vpos, vblocks, vslots, vlast>>
+          vhet,     \* HET table
+          vbeth,    \* BET name hashes, one per file index
+          vlk,      \* the lookup in progress: [st, kind, file, sp, name, cands, blk, via]
+          vlast     \* the last observation of the reader: [kind, file, sp, out, via]
+bvars == <<vph, vfiles, vcrc, vcur, vsecs, vpos, vblocks, vslots, vhet, vbeth, vlk, vlast>>
 
-NoObs == [kind |-> "none", file |-> 0, sp |-> "asis", out |-> "-"]
+NoObs == [kind |-> "none", file |-> 0, sp |-> "asis", out |-> "-", via |-> "-"]
+Idle  == [st |-> "idle", kind |-> "none", file |-> 0, sp |-> "asis", name |-> <<>>, cands |-> <<>>, blk |-> 0, via |-> "-"]
 HeaderSize == 32
 
 \* compressed-size choices per compressibility class, incl. the store-raw boundary
@@ -210,19 +260,20 @@ BInitWith(FileSeqs) ==
   /\ vfiles \in FileSeqs /\ vcrc \in BOOLEAN
   /\ vph = "writing" /\ vcur = 1 /\ vsecs = <<>> /\ vpos = HeaderSize
   /\ vblocks = <<>> /\ vslots = [ix \in 0..(TableSize - 1) |-> Empty] /\ vlast = NoObs
+  /\ vhet = [ix \in 0..(HetSize - 1) |-> EmptyHet] /\ vbeth = <<>> /\ vlk = Idle
 
 CurFile == vfiles[vcur]
 
 \* compress() returns Err: build() reports an error, no archive
 BuildFailCodec ==
   /\ vph = "writing" /\ BuildRefuses(CurFile)
-  /\ vph' = "failed" /\ UNCHANGED <<vfiles, vcrc, vcur, vsecs, vpos, vblocks, vslots, vlast>>
+  /\ vph' = "failed" /\ UNCHANGED <<vfiles, vcrc, vcur, vsecs, vpos, vblocks, vslots, vhet, vbeth, vlk, vlast>>
 
 FinishWith(secs) ==
   /\ vblocks' = Append(vblocks, MkBlock(CurFile, vcrc, secs, vpos))
   /\ vpos' = vpos + WriterSpan(CurFile, vcrc, secs)
   /\ vph' = "hashing" /\ vsecs' = <<>>
-  /\ UNCHANGED <<vfiles, vcrc, vcur, vslots, vlast>>
+  /\ UNCHANGED <<vfiles, vcrc, vcur, vslots, vhet, vbeth, vlk, vlast>>
 
 WriteSingleUnit ==
   /\ vph = "writing" /\ ~BuildRefuses(CurFile) /\ IsSingleUnit(CurFile.len)
@@ -233,7 +284,7 @@ WriteSector ==
   /\ Len(vsecs) < SectorCount(CurFile.len)
   /\ LET r == SectorRaw(CurFile.len, Len(vsecs) + 1) IN
      \E c \in CompChoices(CurFile.cls, r) : vsecs' = Append(vsecs, StoredUnit(r, c, CurFile.method))
-  /\ UNCHANGED <<vph, vfiles, vcrc, vcur, vpos, vblocks, vslots, vlast>>
+  /\ UNCHANGED <<vph, vfiles, vcrc, vcur, vpos, vblocks, vslots, vhet, vbeth, vlk, vlast>>
 
 FinishFile ==
   /\ vph = "writing" /\ ~IsSingleUnit(CurFile.len) /\ Len(vsecs) = SectorCount(CurFile.len)
@@ -241,23 +292,46 @@ FinishFile ==
 
 AddHash ==
   /\ vph = "hashing"
-  /\ LET ins == Insert(vslots, CurFile.name, vcur) IN
-     IF ins.ok THEN /\ vslots' = ins.slots /\ vcur' = vcur + 1
-                    /\ vph' = IF vcur = Len(vfiles) THEN "built" ELSE "writing"
-               ELSE /\ vph' = "failed" /\ UNCHANGED <<vslots, vcur>>          \* "Duplicate file in archive"
-  /\ UNCHANGED <<vfiles, vcrc, vsecs, vpos, vblocks, vlast>>
+  /\ LET ins == Insert(vslots, CurFile.name, vcur)
+         hin == HetInsert(vhet, CurFile.name, vcur)
+     IN
+     IF ins.ok /\ (hin.ok \/ ~UseHetBet)
+     THEN /\ vslots' = ins.slots /\ vcur' = vcur + 1
+          /\ vhet' = IF UseHetBet THEN hin.het ELSE vhet
+          /\ vbeth' = IF UseHetBet THEN Append(vbeth, BetWriterHash(CurFile.name)) ELSE vbeth
+          /\ vph' = IF vcur = Len(vfiles) THEN "built" ELSE "writing"
+     ELSE /\ vph' = "failed" /\ UNCHANGED <<vslots, vcur, vhet, vbeth>>          \* "Duplicate file in archive" / "HET table full"
+  /\ UNCHANGED <<vfiles, vcrc, vsecs, vpos, vblocks, vlk, vlast>>
 
-ReadName(nm) == LET blk == Lookup(vslots, nm) IN IF blk = 0 THEN "notfound" ELSE ReadBlock(vblocks[blk], nm)
+\* ---- reader: archive.find_file as a little machine -------------------------------------------------------------
+BeginLookup(kind, i, sp, nm) ==
+  /\ vph = "built" /\ vlk.st = "idle"
+  /\ vlk' = [Idle EXCEPT !.st = IF UseHetBet THEN "het" ELSE "classic", !.kind = kind, !.file = i, !.sp = sp, !.name = nm]
+  /\ UNCHANGED <<vph, vfiles, vcrc, vcur, vsecs, vpos, vblocks, vslots, vhet, vbeth, vlast>>
+ReadFile(i, sp)    == BeginLookup("file", i, sp, Spell(vfiles[i].name, sp))
+ReadAbsent(nm, sp) == BeginLookup("absent", 0, sp, Spell(nm, sp))
 
-ReadFile(i, sp) ==
-  /\ vph = "built"
-  /\ vlast' = [kind |-> "file", file |-> i, sp |-> sp, out |-> ReadName(Spell(vfiles[i].name, sp))]
-  /\ UNCHANGED <<vph, vfiles, vcrc, vcur, vsecs, vpos, vblocks, vslots>>
-
-ReadAbsent(nm, sp) ==
-  /\ vph = "built"
-  /\ vlast' = [kind |-> "absent", file |-> 0, sp |-> sp, out |-> ReadName(Spell(nm, sp))]
-  /\ UNCHANGED <<vph, vfiles, vcrc, vcur, vsecs, vpos, vblocks, vslots>>
+HetProbe ==
+  /\ vlk.st = "het"
+  /\ vlk' = [vlk EXCEPT !.st = "bet", !.cands = HetCandidates(vhet, vlk.name)]
+  /\ UNCHANGED <<vph, vfiles, vcrc, vcur, vsecs, vpos, vblocks, vslots, vhet, vbeth, vlast>>
+BetVerify ==
+  /\ vlk.st = "bet"
+  /\ LET hit == BetFirstVerified(vbeth, vlk.cands, vlk.name) IN
+     vlk' = IF hit # 0 THEN [vlk EXCEPT !.st = "found", !.blk = hit, !.via = "hetbet"]
+            ELSE [vlk EXCEPT !.st = "classic"]                 \* "no candidate matched": fall back while hash tables exist
+  /\ UNCHANGED <<vph, vfiles, vcrc, vcur, vsecs, vpos, vblocks, vslots, vhet, vbeth, vlast>>
+ClassicFallback ==
+  /\ vlk.st = "classic"
+  /\ vlk' = [vlk EXCEPT !.st = "found", !.blk = Lookup(vslots, vlk.name), !.via = "classic"]
+  /\ UNCHANGED <<vph, vfiles, vcrc, vcur, vsecs, vpos, vblocks, vslots, vhet, vbeth, vlast>>
+\* read_file on the block that find_file returned
+Deliver ==
+  /\ vlk.st = "found"
+  /\ vlast' = [kind |-> vlk.kind, file |-> vlk.file, sp |-> vlk.sp, via |-> vlk.via,
+               out |-> IF vlk.blk = 0 THEN "notfound" ELSE ReadBlock(vblocks[vlk.blk], vlk.name)]
+  /\ vlk' = Idle
+  /\ UNCHANGED <<vph, vfiles, vcrc, vcur, vsecs, vpos, vblocks, vslots, vhet, vbeth>>
 
 \* ---------------------------------------------------------------------------------------------
 \* invariants
@@ -277,11 +351,11 @@ StoredBound == \A j \in 1..Len(vblocks) : LET b == vblocks[j] IN
 \* files do not overlap
 NoOverlap == \A j \in 1..Len(vblocks) : vblocks[j].pos + vblocks[j].csize <= (IF j < Len(vblocks) THEN vblocks[j+1].pos ELSE vpos)
 \* every added name sits in exactly one slot, every spelling finds its block
-TableWellFormed == (vph = "built" /\ vlast = NoObs) =>
+TableWellFormed == (vph = "built" /\ vlast = NoObs /\ vlk = Idle) =>
   \A i \in 1..Len(vfiles) : /\ Cardinality({ix \in DOMAIN vslots : vslots[ix].blk = i}) = 1
                             /\ \A sp \in Spellings : Lookup(vslots, Spell(vfiles[i].name, sp)) = i
 \* the key the reader derives from the spelled name and the block entry is the writer's key
-KeyAgreement == (vph = "built" /\ vlast = NoObs) => \A i \in 1..Len(vfiles) : \A sp \in Spellings :
+KeyAgreement == (vph = "built" /\ vlast = NoObs /\ vlk = Idle) => \A i \in 1..Len(vfiles) : \A sp \in Spellings :
   LET b == vblocks[i] IN KeyFor(Spell(vfiles[i].name, sp), "FIX_KEY" \in b.flags, b.pos, b.fsize) = b.key
 
 \* THE PROPERTY on the model: every read of an added file under every spelling is exact, unless a named
@@ -294,4 +368,14 @@ Explained(b, out) ==
 ReadBack == vlast.kind = "file" => (vlast.out = "exact" \/ Explained(vblocks[vlast.file], vlast.out))
 ReadBackNeverNotFound == vlast.kind = "file" => vlast.out # "notfound"
 AbsentNotFound == vlast.kind = "absent" => vlast.out = "notfound"
+\* the HET/BET path: whatever it answers is the file that was asked for (never another file, never an absent name)
+HetBetAnswersOwn == (vlk.st = "found" /\ vlk.via = "hetbet") => (vlk.kind = "file" /\ vlk.blk = vlk.file)
+\* with lookup3 values in the BET table the HET/BET path answers for every added name under every spelling
+\* (except names whose 8-bit hash is the free marker)
+BetFixAnswers == (BetFix /\ UseHetBet /\ vlk.st = "found" /\ vlk.kind = "file") =>
+                    (vlk.via = "hetbet" \/ \E i \in 1..Len(vfiles) : DevHet8FF(vfiles[i].name))
+\* named deviation DevBetHashMismatch (builder before the fix): the stored one-at-a-time values never verify, every
+\* lookup falls back to the classic tables
+DevBetHashMismatch == ~BetFix
+AsIsAlwaysFallsBack == (DevBetHashMismatch /\ vlk.st = "found") => vlk.via = "classic"
 =============================================================================
